@@ -53,10 +53,10 @@ Section Proofs2.
   (* Affine / Affine2D: U, V orthogonal (det = +-1).  After the sign fixes both
      rotation_mat2vec arguments have determinant +1, and _direct is False
      exactly when det U * det V = -1 (= sign of det A). *)
-  Lemma affine_factors_proper k o M x :
+  Lemma affine_factors_proper k prior o M x :
     In k class_names -> lookup k src_fx_owner = Some "Affine"%string ->
     fx_contract k o M -> is_pm1 (det3 (o_U R o)) -> is_pm1 (det3 (o_V R o)) ->
-    from_matrix44 k true o M = Some x ->
+    from_matrix44 k prior o M = Some x ->
     det3 (x_R x) = r1 /\ det3 (x_Q x) = r1 /\
     x_direct x = negb (rneg (rmul (det3 (o_U R o)) (det3 (o_V R o)))).
   Proof.
@@ -81,10 +81,10 @@ Section Proofs2.
   Qed.
 
   (* Rigid / Rigid2D: the linear part is orthogonal. *)
-  Lemma rigid_factors_proper k o M x :
+  Lemma rigid_factors_proper k prior o M x :
     In k class_names -> lookup k src_fx_owner = Some "Rigid"%string ->
     WfAff 3 3 M -> is_pm1 (det3 (lin_part M)) ->
-    from_matrix44 k true o M = Some x ->
+    from_matrix44 k prior o M = Some x ->
     det3 (x_R x) = r1 /\ det3 (x_Q x) = r1 /\ x_direct x = negb (rneg (det3 (lin_part M))).
   Proof.
     intros Hk Hown HM HA Hx.
